@@ -17,11 +17,13 @@ def tasks(tier, seed):
         ts += [{"kind": "exh_re", "ops": o, "part": i, "parts": 4, "n": 4} for o in (0, 1, 2) for i in range(4)]
         ts += [{"kind": "rnd_re", "count": 500, "seed": seed * 10 + i, "n": 4} for i in range(4)]
         ts += [{"kind": "rel_re", "count": 120, "seed": seed * 10 + i, "n": 3} for i in range(4)]
+        ts += [{"kind": "pre_re", "count": 80, "seed": seed * 10 + i, "n": 3} for i in range(3)]
     else:
         ts += [{"kind": "exh_re", "ops": o, "part": i, "parts": 4, "n": 4} for o in (0, 1, 2) for i in range(4)]
         ts += [{"kind": "exh_re", "ops": 3, "part": i, "parts": 32, "n": 4} for i in range(32)]
         ts += [{"kind": "rnd_re", "count": 2500, "seed": seed * 10 + i, "n": 5} for i in range(32)]
         ts += [{"kind": "rel_re", "count": 400, "seed": seed * 10 + i, "n": 4} for i in range(16)]
+        ts += [{"kind": "pre_re", "count": 300, "seed": seed * 10 + i, "n": 4} for i in range(16)]
     return gen.spread(ts, hs)
 
 
@@ -97,6 +99,11 @@ def drive(task):
         for i in range(task["count"]):
             for r, asked in U.related_regexps_described(rng, rng.choice(["ab", "ab", "abc"]), ab.regexp):
                 yield from events(r, task["n"], {"kind": "re"}, asked=asked)
+    elif task["kind"] == "pre_re":
+        rng = random.Random(task["seed"])
+        for i in range(task["count"]):
+            for r, asked in U.prefix_regexps_described(rng, rng.choice(["ab", "abc", "abc"]), ab.regexp):
+                yield from events(r, min(task["n"], 4), {"kind": "re"}, asked=asked)
     else:
         rng = random.Random(task["seed"])
         for i in range(task["count"]):
